@@ -15,13 +15,14 @@ BINS = {}          # set by the runner before gen_cases is called
 
 THEOREMS = [
     "C11_int_roundtrip: in_i64 z -> integer (write_i64 z) = Ok z at end /\\ parse_value_raw (write_i64 z) = POk (SInt z)",
-    "C11_int_no_wrap: integer t = Ok z -> in_i64 z (no wrapped/saturated value can come out, any base)",
-    "C11_int_range: a well-formed literal of base 2/8/10/16 (prefix, digits, single underscores; decimal sign) whose value is outside i64 is never Ok, whatever follows",
-    "C11_float_overflow: a decimal float literal with m*10^e >= 2^1024-2^970 is rejected, either sign (uses FLOAT_REJECT_POS_INF/NEG_INF)",
-    "C11_float_never_inf: a decimal literal never yields an infinity",
-    "C11_overflow_threshold_sound: overflows m e = true <-> 2^1024-2^970 <= m*10^e (exact, on Q)",
-    "C11_float_write_shape: under the std-printer shape hypotheses the f64/f32 writer's text is read by `float` as the same sign/digits (never as an integer)",
-    "C11_ser_checked: serialize_u64/i128/u128 beyond i64 = Err; de of an integer outside the target width = Err",
+    "C11_int_no_wrap: integer i = Ok z i' -> in_i64 z (no wrapped/saturated value can come out, any base, any input)",
+    "C11_int_range / C11_int_range_digits: a well-formed literal of base 2/8/10/16 (prefix, digits, single underscores; decimal sign) whose value is outside i64 is a committed error, whatever follows",
+    "C11_float_overflow / _value: a decimal float literal with m*10^e >= 2^1024-2^970 is rejected, either sign (uses FLOAT_REJECT_POS_INF/NEG_INF)",
+    "C11_float_never_inf / C11_float_inf_only_spelled: a decimal literal never yields an infinity",
+    "C11_overflow_threshold_sound / C11_ndigits_bounds: overflows m e = true <-> 2^1024-2^970 <= m*10^e (exact, cross-multiplied on Z)",
+    "C11_float_write_shape / _nan / _zero / _inf / _special_value: under the std-printer shape hypotheses the float writer's text is read by `float` completely as the same sign/digits, and by Value::from_str as a Float (never an Integer)",
+    "C11_f64_roundtrip_under_std / C11_f32_roundtrip_under_std / C11_f32_widen_exact / C11_f32_write_special: the round trip reduced to the std oracle; f32 goes through the exact, injective, class-preserving widening",
+    "C11_ser_checked / C11_ser_exact: serialize_u64/i128/u128 beyond i64 = Err; de of an integer outside the target width = Err; what passes is exact",
 ]
 RULE = ("i64: all boundary values, 2^k and 10^k ladders with neighbours, uniform bit patterns and uniform bit lengths; "
         "f64/f32: every class boundary (zeros, subnormal/normal edges, max finite, infinities, NaNs of both signs and payload kinds), "
@@ -33,7 +34,8 @@ RULE = ("i64: all boundary values, 2^k and 10^k ladders with neighbours, uniform
 ASSUMPTIONS = [
     "std `{}` on f64/f32 (shortest round-trip digits, no exponent) and str::parse::<f64> (correct rounding) are oracles: the Coq theorems take their shape as explicit hypotheses; every generated case checks those hypotheses against Python's independent float()/repr()",
     "serde's primitive Serialize impls and range-checking visitors are modelled by their functional spec (Model/SerNum.v)",
-    "the classification of a float (sign, NaN, zero, `x % 1.0 == 0.0`) is computed from the bit pattern in the model (IEEE-754 semantics of the four core operations)",
+    "the classification of a float (sign, NaN, zero, `x % 1.0 == 0.0`) and the exact widening f64::from(f32) are computed from the bit pattern in the model (IEEE-754 semantics of core operations; widen32 is printed as `w=` and compared with the implementation on every f32 case)",
+    "integer-to-float targets on the serde input side (serde's f32/f64 visitors accept visit_i64 with an `as` cast) are outside the property's quantifier (integer widths) and not checked",
 ]
 
 I64_MIN, I64_MAX = -2 ** 63, 2 ** 63 - 1
